@@ -75,3 +75,29 @@ def isolated(fn, *args):
         return value
 
     return untraced(run)
+
+
+class DeadlineExceeded(BaseException):
+    """Raised inside a case that did not finish within its wall-clock allowance (non-termination, deadlock): the library cannot swallow it."""
+
+
+class deadline(object):
+    """`with deadline(5): ...` - turns a hang of the code under test into an exception the harness can report (main thread only)."""
+
+    def __init__(self, seconds):
+        self.seconds = seconds
+
+    def _fire(self, signum, frame):
+        raise DeadlineExceeded("no result within %s s" % self.seconds)
+
+    def __enter__(self):
+        import signal
+        self._old = signal.signal(signal.SIGALRM, self._fire)
+        signal.setitimer(signal.ITIMER_REAL, self.seconds)
+        return self
+
+    def __exit__(self, *exc):
+        import signal
+        signal.setitimer(signal.ITIMER_REAL, 0)
+        signal.signal(signal.SIGALRM, self._old)
+        return False
